@@ -206,8 +206,9 @@ def renderDelta (old new : DState) (extra : List String) (snaps : List String) :
           let p := match x with
             | none => "-"
             | some it => payloadOf it
-          let nm := if s.stateless && sid == 0 then "q" else s.name
-          apps := apps ++ [s!"a:{nm}:{tname s sid}:{p}"]
+          -- (the standalone stream of the stateless store session "" is shared: printed first, as session `q`)
+          if s.stateless && sid == 0 then apps := [s!"a:q:t0:{p}"] ++ apps
+          else apps := apps ++ [s!"a:{s.name}:{tname s sid}:{p}"]
       -- a stateless handler returns only after its session has closed
       let endedNow (e : Exch String) (c : Conn String) : Bool := if s.stateless then e.ended && c.isDone else e.ended
       let mut i := 0
@@ -350,7 +351,9 @@ def modelOp (d : DState) (toks : List String) : Option OpOut :=
       match getSess acc s0.name with
       | none => acc
       | some s =>
-        if s.listenS && !s.dead && !s.closing then
+        -- legacy sessions are notified on their standalone stream, 2026-07-28 sessions only if they listen;
+        -- a session that is closing still lets notifications through while a handler is in flight
+        if (s.listenS || !s.newProto) && !s.dead && !(s.closing && s.parked.isEmpty) then
           let (d1, s1, _) := applyLabels acc s [.write (.notif "U.notifications/tools/list_changed") none false]
           let (d2, s2) := settle d1 s1
           putSess d2 s2
@@ -553,12 +556,21 @@ def routeOK (m : Mon) (jsonMode : Bool) (pv : Prov) (sess : String) (stream : Op
         | none => false
       | none, none => false
     if ok then none else some "C10: initialize response delivered on an exchange that does not belong to its request"
-  | .inReq ps _ post =>
+  | .inReq ps req post =>
     if ps != sess then some "C10: in-request message delivered to another session"
     else if jsonMode then
       if standaloneOrListen then none else some "C10: JSON mode: in-request message not on the standalone/listen stream"
     else if ownExchange ps post then none
-    else some "C10: in-request message routed to a stream that does not belong to its request"
+    else
+      -- the one shape that needs a protocol-violating client: the request id was reused for a later
+      -- request of the same session and the straggler of the finished request lands on the new stream
+      let reusedId : Bool := match stream with
+        | some t => match m.posts.lookup (sess, t) with
+          | some p => p != post && ((m.getEx p).map (fun pe => pe.ids.contains (req.toNat?.getD 0))).getD false
+          | none => false
+        | none => false
+      if reusedId then some "C10: straggler of a finished request delivered on the stream of a later request that reuses its id (client reused a request id within the session)"
+      else some "C10: in-request message routed to a stream that does not belong to its request"
   | .detached ps =>
     if ps != sess then some "C10: detached message delivered to another session"
     else if standaloneOrListen then none
@@ -786,6 +798,7 @@ def engine (prop : String) : Engine DState where
   step d toks impl :=
     match toks with
     | ["reset"] => ({}, { model := "ok" })
+    | ["endcase"] => (d, { model := "ok" })
     | ["cfg", mode, resp, st] =>
       let d : DState := { store := st == "store", jsonM := resp == "json" }
       ({ d with cfg := some (mkCfg d (mode == "stateless")) }, { model := "ok" })
